@@ -86,6 +86,7 @@ def gen_capacity(ctx, k, cap=None, fill=None):
     else:
         sc.add(*bus_lines([(0, 0, 0)]), f'bus cap {cap}', normal_start_line())
     eff = max(64, cap)
+    reannounce = fill is None and cap != 0 and k % 3 == 1
     calls = []
     seq = None   # numbering restarts after the reset in start; the oracle takes the first observed seq as base
     # zero-response messages to node 0 never wait for budget: pure packet-filling behaviour
@@ -118,6 +119,12 @@ def gen_capacity(ctx, k, cap=None, fill=None):
             name, ad, a, data = gen.random_call(rng, (0, 0, 0), names=zr, hot=0.6)
         sc.add(call(name, *S.tokens(name, ad, a)))
         calls.append((name, ad, data, None, ''))
+        if reannounce and rng.random() < 0.1:
+            # the interface announces another capacity in mid-session (lower or higher), with messages waiting in the send buffer: what was
+            # accepted stays accepted; packets filled from now on obey the new value (the bound checked here is the largest one in force so far)
+            c2 = rng.choice([0, 10, 64, 65, 100, 128, 200, 255])
+            sc.add(up(model.build_msg((0, 0, 0), 0, model.C('MSG_PKT_CAPACITY'), bytes([c2]))), 'quiesce')
+            eff = max(eff, c2)
         if rng.random() < 0.08:
             sc.add('flush')
     sc.add('flush', 'quiesce', 'mark done', 'stop')
